@@ -1,6 +1,10 @@
 package hash
 
-import "github.com/brewlin/net-protocol/protocol/header"
+import (
+	"encoding/binary"
+
+	"github.com/brewlin/net-protocol/protocol/header"
+)
 
 // C08 (D4): the reassembly key distinguishes different datagrams.
 func vh_key_distinct() {
@@ -11,4 +15,17 @@ func vh_key_distinct() {
 	vassume(differ)
 	vassertKnown(IPv4FragmentHash(ha) != IPv4FragmentHash(hb), "fragments of different datagrams (id, protocol, source, destination) get different reassembly keys", "D4-fragkey-collision", true)
 	vreach("key")
+}
+
+// The key is the 3-word hash of exactly (id<<16|protocol, source, destination): every byte of
+// both addresses enters at its own position (reference composition written independently).
+func vh_key_composition() {
+	hashIV = vnU32("iv")
+	a := vnBytes("ha", 20)
+	h := header.IPv4(a)
+	x := uint32(binary.BigEndian.Uint16(a[4:6]))<<16 | uint32(a[9])
+	y := binary.LittleEndian.Uint32(a[12:16])
+	z := binary.LittleEndian.Uint32(a[16:20])
+	vassert(IPv4FragmentHash(h) == Hash3Words(x, y, z, hashIV), "the reassembly key is Hash3Words(id<<16|protocol, source, destination, iv)")
+	vreach("composition")
 }
